@@ -647,3 +647,7 @@ mod tests {
         local.inc_by(-42.0);
     }
 }
+
+// Verification hook: unit-level harnesses are compiled as a child module (only with `--cfg prometheus_verif`).
+#[cfg(all(prometheus_verif, any(kani, prometheus_verif_replay)))]
+include!(concat!(env!("PROMETHEUS_VERIF_INCRATE"), "/counter.rs"));
